@@ -29,6 +29,11 @@ Fixpoint nocolon (s : string) : bool :=
   match s with EmptyString => true | String c r => negb (Ascii.eqb c ":") && nocolon r end.
 Fixpoint has_dot (s : string) : bool :=
   match s with EmptyString => false | String c r => Ascii.eqb c "." || has_dot r end.
+Fixpoint starts (p s : string) : bool :=
+  match p with
+  | EmptyString => true
+  | String a p' => match s with EmptyString => false | String b s' => Ascii.eqb a b && starts p' s' end
+  end.
 (* the part before the first ':' (the whole string when there is none) and the part after it *)
 Fixpoint tok (s : string) : string :=
   match s with EmptyString => "" | String c r => if Ascii.eqb c ":" then "" else String c (tok r) end.
@@ -152,4 +157,87 @@ Proof.
     + exfalso. cbn in E. inversion H1; subst. apply (f_equal String.length) in E. rewrite !slen_app in E. lia.
     + inversion H1; subst. inversion H2; subst. cbn in E. rewrite !sapp_assoc in E.
       apply sapp_len_inj in E; [|congruence]. destruct E as [-> E]. f_equal. apply IH; auto.
+Qed.
+
+(* ------------------------------------------------------------------ repr of a shape tuple: "()", "(6,)", "(2, 3)" *)
+Definition isdigit (c : ascii) : bool := let n := nat_of_ascii c in Nat.leb 48 n && Nat.leb n 57.
+Fixpoint alldigit (s : string) : bool :=
+  match s with EmptyString => true | String c r => isdigit c && alldigit r end.
+Definition starts_nondigit (s : string) : bool :=
+  match s with EmptyString => false | String c _ => negb (isdigit c) end.
+
+Lemma uint_alldigit : forall d, alldigit (NilEmpty.string_of_uint d) = true.
+Proof. induction d; cbn; auto. Qed.
+Lemma dec_nat_alldigit : forall n, alldigit (dec_nat n) = true.
+Proof. intros. apply uint_alldigit. Qed.
+
+Lemma digits_then_inj : forall a b x y,
+    alldigit a = true -> alldigit b = true -> starts_nondigit x = true -> starts_nondigit y = true ->
+    a ++ x = b ++ y -> a = b /\ x = y.
+Proof.
+  induction a as [|c a IH]; intros [|d b] x y Ha Hb Hx Hy E; cbn in *.
+  - auto.
+  - exfalso. subst x. cbn in Hx. apply andb_true_iff in Hb. destruct Hb as [Hd _]. rewrite Hd in Hx. discriminate.
+  - exfalso. subst y. cbn in Hy. apply andb_true_iff in Ha. destruct Ha as [Hc _]. rewrite Hc in Hy. discriminate.
+  - injection E as -> E. apply andb_true_iff in Ha, Hb. destruct Ha as [_ Ha], Hb as [_ Hb].
+    destruct (IH b x y Ha Hb Hx Hy E) as [-> ->]. auto.
+Qed.
+
+Lemma nocolon_app : forall a b, nocolon (a ++ b) = nocolon a && nocolon b.
+Proof. induction a as [|c a IH]; intros b; cbn; [reflexivity|]. rewrite IH. now rewrite andb_assoc. Qed.
+
+Lemma alldigit_nocolon : forall s, alldigit s = true -> nocolon s = true.
+Proof.
+  induction s as [|c s IH]; cbn; intros E; [reflexivity|]. apply andb_true_iff in E. destruct E as [Hc Hs].
+  rewrite IH by auto. rewrite andb_true_r. apply negb_true_iff. destruct (Ascii.eqb_spec c ":") as [->|]; [discriminate Hc|reflexivity].
+Qed.
+
+Lemma shape_tail_nocolon : forall l, nocolon (shape_tail l) = true.
+Proof.
+  induction l as [|n l IH]; cbn; [reflexivity|]. rewrite nocolon_app, IH, (alldigit_nocolon _ (dec_nat_alldigit n)). reflexivity.
+Qed.
+Lemma shape_repr_nocolon : forall l, nocolon (shape_repr l) = true.
+Proof.
+  intros [|n [|m l]]; cbn; [reflexivity| |].
+  - rewrite nocolon_app, (alldigit_nocolon _ (dec_nat_alldigit n)). reflexivity.
+  - rewrite nocolon_app, (alldigit_nocolon _ (dec_nat_alldigit n)). cbn.
+    rewrite nocolon_app, (alldigit_nocolon _ (dec_nat_alldigit m)), shape_tail_nocolon. reflexivity.
+Qed.
+
+Lemma shape_tail_inj : forall l l', shape_tail l = shape_tail l' -> l = l'.
+Proof.
+  induction l as [|n l IH]; intros [|m l'] E; cbn in E; try discriminate; [reflexivity|].
+  injection E as E.
+  assert (Hs : forall r, starts_nondigit (shape_tail r) = true) by (intros [|? ?]; reflexivity).
+  destruct (digits_then_inj _ _ _ _ (dec_nat_alldigit n) (dec_nat_alldigit m) (Hs l) (Hs l') E) as [En El].
+  apply dec_nat_inj in En. subst. f_equal. auto.
+Qed.
+
+Lemma dec_nat_head : forall n, exists c r, dec_nat n = String c r /\ isdigit c = true.
+Proof.
+  intros n. pose proof (dec_nat_alldigit n) as Ha. destruct (dec_nat n) as [|c r] eqn:E.
+  - exfalso. unfold dec_nat in E.
+    assert (E2 : Some (Nat.to_uint n) = Some Decimal.Nil) by (rewrite <- NilEmpty.usu, E; reflexivity).
+    inversion E2 as [E3]. pose proof (DecimalNat.Unsigned.of_to n) as E4. rewrite E3 in E4. cbn in E4. subst n. discriminate E3.
+  - cbn in Ha. apply andb_true_iff in Ha. destruct Ha as [Hc _]. eauto.
+Qed.
+
+Lemma shape_repr_inj : forall l l', shape_repr l = shape_repr l' -> l = l'.
+Proof.
+  assert (Hs : forall r, starts_nondigit (shape_tail r) = true) by (intros [|? ?]; reflexivity).
+  intros [|n [|m l]] [|n' [|m' l']] E; cbn in E; try reflexivity; injection E as E.
+  - exfalso. destruct (dec_nat_head n') as (c & r & Ed & Hc). rewrite Ed in E. cbn in E. injection E as Ec _. subst c. vm_compute in Hc. discriminate Hc.
+  - exfalso. destruct (dec_nat_head n') as (c & r & Ed & Hc). rewrite Ed in E. cbn in E. injection E as Ec _. subst c. vm_compute in Hc. discriminate Hc.
+  - exfalso. destruct (dec_nat_head n) as (c & r & Ed & Hc). rewrite Ed in E. cbn in E. injection E as Ec _. subst c. vm_compute in Hc. discriminate Hc.
+  - destruct (digits_then_inj _ _ ",)" ",)" (dec_nat_alldigit n) (dec_nat_alldigit n') eq_refl eq_refl E) as [En _].
+    apply dec_nat_inj in En. now subst.
+  - exfalso.
+    destruct (digits_then_inj _ _ ",)" (", " ++ dec_nat m' ++ shape_tail l') (dec_nat_alldigit n) (dec_nat_alldigit n') eq_refl eq_refl E)
+      as [_ E2]. cbn in E2. discriminate E2.
+  - exfalso. destruct (dec_nat_head n) as (c & r & Ed & Hc). rewrite Ed in E. cbn in E. injection E as Ec _. subst c. vm_compute in Hc. discriminate Hc.
+  - exfalso.
+    destruct (digits_then_inj _ _ (", " ++ dec_nat m ++ shape_tail l) ",)" (dec_nat_alldigit n) (dec_nat_alldigit n') eq_refl eq_refl E)
+      as [_ E2]. cbn in E2. discriminate E2.
+  - destruct (digits_then_inj _ _ _ _ (dec_nat_alldigit n) (dec_nat_alldigit n') (Hs (m :: l)) (Hs (m' :: l')) E) as [En El].
+    apply dec_nat_inj in En. apply (shape_tail_inj (m :: l) (m' :: l')) in El. inversion El; subst; reflexivity.
 Qed.
